@@ -1,6 +1,7 @@
 import PpciVerif.Proofs.IRWF
 import PpciVerif.Proofs.OptWF
 import PpciVerif.Proofs.OptWFDel
+import PpciVerif.Proofs.OptWFFold
 /-!
 # C03 — optimization passes keep IR well-formed
 
@@ -15,12 +16,12 @@ Property theorems only.
 * Pass models: `Model.Opt` (tied to ppci/opt by the differential run of harness/c03.py and harness/c02.py).
 
 V part: `wf_checker_decides_WF`, `wfModule_checker_decides_WFModule` (+ the two graph theorems they rest on).
-P part: `replace_by_preserves_wf`, `cse_preserves_wf`, `deleteUnused_preserves_wf`, `removeAddZero_preserves_wf_partial`;
-stated and not shown: `constFold_preserves_wf_full` (and nothing is claimed as a theorem about mem2reg, clean, tailcall,
-cjump, load-after-store: validated per output only).
+P part: `replace_by_preserves_wf`, `cse_preserves_wf`, `deleteUnused_preserves_wf`, `constFold_preserves_wf`,
+`removeAddZero_preserves_wf_partial` (nothing is claimed as a theorem about mem2reg, clean, tailcall, cjump,
+load-after-store: validated per output only).
 -/
 namespace Props.C03
-open Spec.IR Spec.IRWF Model.Opt Proofs.OptWF Proofs.OptWFDel
+open Spec.IR Spec.IRWF Model.Opt Proofs.OptWF Proofs.OptWFDel Proofs.OptWFFold
 
 /-! ## V part: the Boolean checker decides the declarative definition -/
 
@@ -128,12 +129,14 @@ theorem removeAddZero_full_fails : ¬ removeAddZero_preserves_wf_full := by
   have : wfModule witnessAfter = true := (Proofs.IRWF.wfModule_iff _).2 this
   exact absurd this (by decide +kernel)
 
-/-! ### stated, not shown -/
-
-/-- ConstantFolder keeps modules well-formed whenever it does not raise.  NOT shown (insertion of the new
-    `Const` shifts definition sites; the chain rewrite replaces an instruction). Validated per output. -/
-def constFold_preserves_wf_full : Prop :=
-  ∀ m m' : Module, WFModule m → runPass constFold m = .ok m' → WFModule m'
+/-- **ConstantFolder** (model `Model.Opt.constFold`): whenever the model returns (it mirrors the Python exceptions
+    of the real pass as `.error`), well-formed in, well-formed out.  No side condition.  Covers both rewrites:
+    a constant expression is replaced by a fresh `Const` of its type inserted right before it (fresh name:
+    `freshName_not_mem`; type and payload: `evalConst_spec`), and the chain `(y ± c1) ± c2 → y ± c3`. -/
+theorem constFold_preserves_wf (m m' : Module) (h : WFModule m) (hr : runPass constFold m = .ok m') :
+    WFModule m' :=
+  (Proofs.IRWF.wfModule_iff _).1
+    (wfModule_runPass constFold (fun _ _ hw hf => wf_constFold hw hf) ((Proofs.IRWF.wfModule_iff m).2 h) hr)
 
 /-! ## non-vacuity -/
 
@@ -169,5 +172,17 @@ example : wfFunc loopM { loopF with blocks := loopF.blocks.map fun b =>
 example : (passByName "cse").isSome = true := by decide +kernel
 example : (passByName "addzero").isSome = true := by decide +kernel
 example : (passByName "delunused").isSome = true := by decide +kernel
+example : (passByName "constfold").isSome = true := by decide +kernel
+
+/-- constant folding does something on a well-formed function and the result is accepted -/
+def foldF : Func := {
+  name := "k", isGlobal := true, ret := some i32, entry := "e", params := [("y", i32)],
+  blocks := [{ name := "e", instrs := [
+    .const "c" i32 (.int 100), .binop "s" i32 .add (.loc "c") (.loc "c"),
+    .binop "a" i32 .add (.loc "y") (.loc "c"), .binop "b" i32 .add (.loc "a") (.loc "s"), .ret (.loc "b")] }] }
+def foldM : Module := { name := "m", externs := [], vars := [], funcs := [foldF] }
+example : wfModule foldM = true := by decide +kernel
+example : (match constFold foldF with | .ok f' => f' != foldF && wfFunc foldM f' | .error _ => false) = true := by
+  decide +kernel
 
 end Props.C03
